@@ -37,13 +37,12 @@ FAMILY = {
         {"name": [46, 47] + D1_, "blocks": [202], "toks": [{"pos": 0, "len": 2, "name": K_}]},
         {"name": [46, 47] + D1_ + [47] + E_, "blocks": [202, 103], "toks": [{"pos": 1, "len": 3, "name": J_}]}],
 }
-MOUNT_CFGS = [("none", 1, [], [[]]),
-              ("outside", 1, [], [[], [F_], [G_], [D_], [D_, H_]]),
-              ("beneath", 1, [], [[], [F_], [G_], [D_], [D_, H_]]),
-              ("outside", 2, [], [[], [D_], [D_, H_], [D1_], [D1_, K_], [D1_, E_], [D1_, E_, J_]]),
-              ("outside", 2, [D_], [[], [H_]]),
-              ("beneath", 2, [D_], [[], [H_]]),
-              ("beneath", 2, [], [[], [D_], [D_, H_], [D1_], [D1_, K_], [D1_, E_], [D1_, E_, J_]])]
+P1 = [[], [F_], [G_], [D_], [D_, H_]]
+P2 = [[], [D_], [D_, H_], [D1_], [D1_, K_], [D1_, E_], [D1_, E_, J_]]
+# (where, family, mount path, paths existing below the mounted subtree); "deep" = beneath a random subdirectory
+MOUNT_CFGS = [("none", 1, [], [[]]), ("outside", 1, [], P1), ("beneath", 1, [], P1), ("outside", 2, [], P2),
+              ("outside", 2, [D_], [[], [H_]]), ("beneath", 2, [D_], [[], [H_]]), ("beneath", 2, [], P2),
+              ("deep", 1, [], P1), ("deep", 2, [D_], [[], [H_]]), ("deep", 2, [], P2)]
 
 
 def clean(comps):
@@ -58,7 +57,6 @@ def clean(comps):
 
 def rand_tree(rnd):
     mnt, fam, mpath, mpaths = rnd.choice(MOUNT_CFGS)
-    mroot = {"none": None, "outside": [MNT], "beneath": [OUT, M_]}[mnt]
     while True:
         nodes = {}
         dirs = [()]
@@ -74,6 +72,11 @@ def rand_tree(rnd):
             nodes[p] = {"path": [list(x) for x in p], "k": k, "c": rnd.choice(CONTENTS) if k == "file" else 0, "abs": False, "tg": []}
             if k == "dir":
                 dirs.append(p)
+        # ... where the collection is mounted (beneath a subdirectory: every link to that directory must bring it along) ...
+        if mnt == "deep" and len(dirs) == 1:
+            continue
+        mroot = {"none": None, "outside": [MNT], "beneath": [OUT, M_]}.get(mnt) if mnt != "deep" else \
+            [OUT] + [list(x) for x in rnd.choice(dirs[1:])] + [M_]
         # ... then where the secret is: nowhere, outside, directly beneath /out, or in some directory below it ...
         r = rnd.random()
         if r < 0.2:
@@ -129,7 +132,7 @@ def rand_tree(rnd):
                 ok = False                                           # names nothing in the collection mount: not judged
         if ok and any(n["k"] == "link" for n in nodes.values()):
             order = sorted(nodes, key=lambda p: (len(p), p))
-            return {"nodes": [nodes[p] for p in order], "mnt": mnt, "mpath": mpath, "sec": sroot, "mount": FAMILY[fam],
+            return {"nodes": [nodes[p] for p in order], "mroot": mroot or [], "mpath": mpath, "sec": sroot, "mount": FAMILY[fam],
                     "experr": False, "random": True}
 
 
@@ -179,7 +182,7 @@ def run(ctx):
         raise vlib.InfraError("TLC OutputCopy/%s did not pass (rc=%d, violated=%s):\n%s" % (mc_cfg, rc, r.violated, r.tail()))
     # ---- evidence
     def shape(s):
-        return (s["mnt"], str(s["mpath"]), str(s["sec"]), len(s["mount"]),
+        return (str(s["mroot"]), str(s["mpath"]), str(s["sec"]), len(s["mount"]),
                 tuple((str(n["path"]), n["k"], n["abs"], str(n["tg"])) for n in s["nodes"]))
     ctx.extra["distinct_nontrivial"] = len({shape(s) for s in scns if any(n["k"] == "link" for n in s["nodes"])})
     ctx.extra["expected_errors_among_generated"] = sum(1 for s in scns if s["experr"])
@@ -187,7 +190,7 @@ def run(ctx):
     ctx.extra["copies_ok"] = sum(1 for t in traces if t[1].get("kind") == "ok")
     ctx.rule = ("scenarios = every output tree of OutputCopy.tla within the Gen bounds (5 candidate paths, each absent / "
                 "directory / file / symlink to one of the listed relative or absolute targets incl. chains, cycles, "
-                "escapes; a collection mount outside or beneath the output path showing all or one directory of one of two "
+                "escapes; a collection mount outside the output path, beneath it or beneath one of its subdirectories, showing all or one directory of one of two "
                 "collections, one of which has directories whose names are prefixes of each other; a secret mount outside, "
                 "beneath the output path or inside one of its subdirectories) plus seeded random trees (depth <= 4, up "
                 "to 14 entries, random relative/absolute targets); non-trivial = trees with at "
